@@ -277,3 +277,93 @@ func TestC08Laws(t *testing.T) {
 		}
 	})
 }
+
+// ---- directed terms: structured programs with conditional exits over re-run loop values --------------------
+//
+// `seq.For(c, p, body)` takes its body as a VALUE: a loop nested directly in another loop's body is built once and
+// run once per outer iteration. The family below spells out the programs
+//
+//	for <outer> { for <inner> { [if stop {break}] [if first-round {yield; stop=true}] i++ } ; stop=false ; [yield] }
+//
+// with every combination of: which round yields, where the conditional break/continue/return sits relative to the
+// yield, and whether something yields after the inner loop, so that the interplay "suspended inside run k of a loop
+// value / resumed / left by break / run k+1 of the same value completes without yielding" is enumerated.
+func directedTerms() []*Term {
+	nrm := func() *Term { return &Term{K: "normal"} }
+	inc := func(v int) *Script { return &Script{Op: "inc", Var: v} }
+	iff := func(v, lt int, a, b *Term) *Term { return &Term{K: "if", Cond: &Cond{Var: v, Lt: lt}, A: a, B: b} }
+	var out []*Term
+	for _, exit := range []string{"break", "continue", "return", "retval"} {
+		for _, exitFirst := range []bool{true, false} {
+			for yieldRound := 0; yieldRound <= 1; yieldRound++ {
+				for _, after := range []string{"none", "yield-last-round", "yield-every-round"} {
+					for _, outerPost := range []bool{true, false} {
+						ex := &Term{K: exit}
+						if exit == "retval" {
+							ex.Val = &Val{Const: 50}
+						}
+						if exit == "continue" {
+							// a continue that does not advance the counter would spin: advance first
+							ex = &Term{K: "delay", S: inc(1), A: ex}
+						}
+						// x0 = round, x1 = i, x2 = stop
+						step := &Term{K: "delay", S: inc(1), A: nrm()}
+						yieldStep := &Term{K: "bind", Val: &Val{Dyn: true, Var: 1}, S: inc(2), A: step}
+						var work *Term
+						if yieldRound == 0 {
+							work = iff(0, 1, yieldStep, clone(step)) // round == 0 yields
+						} else {
+							work = iff(0, 1, clone(step), yieldStep) // round >= 1 yields
+						}
+						var body *Term
+						if exitFirst {
+							body = iff(2, 1, work, ex) // if !stop { work } else { exit }
+						} else {
+							body = &Term{K: "combine", A: work, B: iff(2, 1, nrm(), ex)}
+						}
+						inner := &Term{K: "while", Cond: &Cond{Var: 1, Lt: 4}, A: body}
+						var tail *Term
+						switch after {
+						case "none":
+							tail = &Term{K: "delay", S: &Script{Op: "reset", Var: 2}, A: nrm()}
+						case "yield-last-round":
+							tail = &Term{K: "delay", S: &Script{Op: "reset", Var: 2}, A: iff(0, 1, nrm(), &Term{K: "bind", Val: &Val{Const: 100, Dyn: true, Var: 1}, S: &Script{}, A: nrm()})}
+						default:
+							tail = &Term{K: "delay", S: &Script{Op: "reset", Var: 2}, A: &Term{K: "bind", Val: &Val{Const: 100, Dyn: true, Var: 1}, S: &Script{}, A: nrm()}}
+						}
+						var outer *Term
+						if outerPost {
+							outer = &Term{K: "for", Cond: &Cond{Var: 0, Lt: 3}, Post: inc(0), A: &Term{K: "combine", A: inner, B: tail}}
+						} else {
+							outer = &Term{K: "while", Cond: &Cond{Var: 0, Lt: 3, Inc: true}, A: &Term{K: "combine", A: inner, B: tail}}
+						}
+						tm := &Term{K: "combine", A: outer, B: &Term{K: "bind", Val: &Val{Const: 900}, S: &Script{}, A: &Term{K: "retval", Val: &Val{Const: 7, Dyn: true, Var: 1}}}}
+						number(tm)
+						out = append(out, tm)
+					}
+				}
+			}
+		}
+	}
+	return out
+}
+
+func TestC08Directed(t *testing.T) {
+	c := coll("C08")
+	c.rule("directed family: outer loop x ONE inner loop value re-run per outer iteration x conditional break/continue/return placed before or after the yield x which round yields x what follows the inner loop, under the two standard histories and a Send-only history")
+	hs := append(stdHistories(), mkOps(1, 2, 3, 4, 5, 6, 7, 8, "res", "cur"))
+	reported := 0
+	fam := directedTerms()
+	for _, tm := range fam {
+		for _, ops := range hs {
+			rep, re := compareTerm("C08", "term", tm, ops, 400)
+			c.eval(tm.JSON()+opsString(ops), re.maxIters >= 2 || re.sigCross, "directed")
+			if rep != nil && reported < 3 {
+				reported++
+				violation(t, rep)
+			}
+		}
+	}
+	c.sample(map[string]any{"directed_term": fam[0].String()})
+	c.markExhaustive(fmt.Sprintf("directed family of %d terms x %d histories", len(fam), len(hs)))
+}
